@@ -67,7 +67,7 @@ func rtResolve(target string) string {
 	return target
 }
 
-func rtBaseRules() []string { return []string{"a.test::127.0.0.2:", "b.test::127.0.0.3:"} }
+func rtBaseRules() []string { return []string{"a.test::" + rtNames["a.test"] + ":", "b.test::127.0.0.3:"} }
 
 func getRT() (*rtEnv, error) {
 	rtOnce.Do(func() {
@@ -90,7 +90,29 @@ func getRT() (*rtEnv, error) {
 			e.peers[name] = p
 			return p
 		}
-		e.oa = mk("OA", "127.0.0.2", nil, HTTPHandler(proxyResponder("OA"), nil))
+		// a.test also listens on the default ports (plain :80, TLS :443). Those are fixed ports, so each process
+		// takes the first loopback address on which both are free (several checks may run at the same time).
+		oaIP := ""
+		for i := 0; i < 64 && oaIP == ""; i++ {
+			ip := fmt.Sprintf("127.0.%d.2", i)
+			p80, err := StartPeerAt("OA80", ip+":80", nil, HTTPHandler(proxyResponder("OA80"), nil))
+			if err != nil {
+				continue
+			}
+			p443, err := StartPeerAt("OA443", ip+":443", e.ca.ServerTLS("a.test"), HTTPHandler(proxyResponder("OA443"), nil))
+			if err != nil {
+				p80.Close()
+				continue
+			}
+			oaIP, e.oa80, e.oa443 = ip, p80, p443
+			e.peers["OA80"], e.peers["OA443"] = p80, p443
+		}
+		if oaIP == "" {
+			rtErr = fmt.Errorf("no loopback address with free ports 80 and 443 for a.test")
+			return
+		}
+		rtNames["a.test"] = oaIP
+		e.oa = mk("OA", oaIP, nil, HTTPHandler(proxyResponder("OA"), nil))
 		e.ob = mk("OB", "127.0.0.3", nil, HTTPHandler(proxyResponder("OB"), nil))
 		e.ol = mk("OL", "127.0.0.1", nil, HTTPHandler(proxyResponder("OL"), nil))
 		e.p = mk("P", "127.0.0.4", nil, HTTPHandler(proxyResponder("P"), TunnelTo(rtResolve)))
@@ -103,15 +125,6 @@ func getRT() (*rtEnv, error) {
 		}, rtResolve))
 		e.r = mk("R", "127.0.0.8", nil, HTTPHandler(proxyResponder("R"), TunnelTo(rtResolve)))
 		if rtErr == nil {
-			// default-port origins for a.test (C06: ports implied by the scheme); optional
-			if p, err := StartPeerAt("OA80", "127.0.0.2:80", nil, HTTPHandler(proxyResponder("OA80"), nil)); err == nil {
-				e.oa80 = p
-				e.peers["OA80"] = p
-			}
-			if p, err := StartPeerAt("OA443", "127.0.0.2:443", e.ca.ServerTLS("a.test"), HTTPHandler(proxyResponder("OA443"), nil)); err == nil {
-				e.oa443 = p
-				e.peers["OA443"] = p
-			}
 			rt = e
 		}
 	})
